@@ -174,14 +174,25 @@ pub fn gen_doc(u: &mut Src) -> J {
 
 const BORING: &[&str] = &["pipe", "identity", "lit", "path", "step:field", "step:index", "step:iter", "comma", "arrcons"];
 
+/// The culprit of a minimised divergent program: its deepest non-boring construct (ties: the last
+/// one in pre-order). `map(reverse)` -> `b:reverse/0`, `.[] | keys` -> `b:keys/0`.
 fn sig_features(ast: &E) -> String {
-    let (_, set) = ast.features();
-    let mut v: Vec<String> = set.iter().filter(|f| !BORING.contains(&f.as_str())).cloned().collect();
-    if v.is_empty() {
-        v = set.into_iter().filter(|f| f != "pipe" && f != "identity").collect();
+    fn walk(e: &E, depth: usize, best: &mut (usize, String)) {
+        let k = e.kind_name();
+        if !BORING.contains(&k.as_str()) && depth >= best.0 {
+            *best = (depth, k);
+        }
+        for c in jqprog::children_of(e) {
+            walk(c, depth + 1, best);
+        }
     }
-    v.truncate(4);
-    v.join("+")
+    let mut best = (0usize, String::new());
+    walk(ast, 0, &mut best);
+    if best.1.is_empty() {
+        let (_, set) = ast.features();
+        return set.into_iter().filter(|f| f != "pipe" && f != "identity").take(3).collect::<Vec<_>>().join("+");
+    }
+    best.1
 }
 
 /// AST-level delta debugging: smallest program (by node count) that still diverges on `text`.
